@@ -11,6 +11,10 @@
 //! offset, local date representable), and the shape of the text against an independent writer
 //! (`ref_date`, `ref_time`, `ref_offset`): explicit sign exactly for years outside 0..=9999, fewest of
 //! 0/3/6/9 fraction digits, second 60 for a leap second.
+//! Known findings (known_findings.json), reported with their exact what-strings (three examples each,
+//! the rest counted): F13 `NaiveDateTime Display does not parse back` (every value), F25
+//! `DateTime<FixedOffset> with out-of-range local date does not parse back` (only values whose wall-clock
+//! date lies outside `NaiveDate::MIN..=MAX`).  Every other round-trip failure has its own what-string.
 use super::c01::{yof, MAX_YEAR, MIN_YEAR};
 use super::c13::err_kind;
 use crate::ctx::*;
